@@ -53,6 +53,8 @@ pub enum Op {
     StageReplay(usize),
     /// replay on replica .0 the stage export saved on replica .1
     StageReplayFrom(usize, usize),
+    /// replica .0 becomes a fresh instance opened on the SAME storage as replica .1 (shared from then on)
+    Attach(usize, usize),
 }
 
 impl Op {
@@ -78,7 +80,8 @@ impl Op {
             | Op::CopyDeltas(r, _)
             | Op::StageSave(r)
             | Op::StageReplay(r)
-            | Op::StageReplayFrom(r, _) => *r,
+            | Op::StageReplayFrom(r, _)
+            | Op::Attach(r, _) => *r,
         }
     }
     pub fn short(&self) -> String {
@@ -104,6 +107,7 @@ impl Op {
             Op::StageSave(r) => format!("stagesave({})", r),
             Op::StageReplay(r) => format!("stagereplay({})", r),
             Op::StageReplayFrom(r, s) => format!("stagereplay({}<-saved on {})", r, s),
+            Op::Attach(r, s) => format!("attach({} to the storage of {})", r, s),
         }
     }
 }
@@ -416,6 +420,24 @@ impl World {
                     m.replay_stage(&s).map_err(|e| format!("replay:{}", e))?;
                     Ok(String::new())
                 })
+            }
+            Op::Attach(_, src) => {
+                if *src >= self.reps.len() || *src == r {
+                    return OpOut::NotEnabled("bad source".into());
+                }
+                let store = self.reps[*src].store.clone();
+                match open(&store) {
+                    Ok(m) => {
+                        self.reps[r].m = m;
+                        self.reps[r].store = store;
+                        self.reps[r].heads = vec![];
+                        self.reps[r].head_views = vec![];
+                        self.reps[r].saved_stage = None;
+                        Ok(Ok(String::new()))
+                    }
+                    Err(e) if e.starts_with("panic:") => Err(e),
+                    Err(e) => Ok(Err(e)),
+                }
             }
             Op::Reopen(_) => {
                 let store = self.reps[r].store.clone();
